@@ -457,6 +457,9 @@ class VRLock:
     self._count = 0
 
   def acquire(self, blocking=True, timeout=-1):
+    if CUR is None:                 # no scheduler: single-threaded use (e.g. sequential cases)
+      self._owner, self._count = "unscheduled", self._count + 1
+      return True
     s = sched()
     me = s.current
     s.point()
@@ -476,6 +479,11 @@ class VRLock:
     return True
 
   def release(self):
+    if CUR is None:
+      self._count -= 1
+      if self._count <= 0:
+        self._owner, self._count = None, 0
+      return
     s = sched()
     if self._owner is not s.current:
       raise RuntimeError("cannot release un-acquired lock")
@@ -491,6 +499,66 @@ class VRLock:
 
   def held_by(self):
     return None if self._owner is None else self._owner.name
+
+
+class VLock:
+  """Non re-entrant lock."""
+
+  def __init__(self):
+    self._owner = None
+
+  def acquire(self, blocking=True, timeout=-1):
+    if CUR is None:
+      if self._owner is not None:
+        raise RuntimeError("virtual Lock would block outside a scheduler run")
+      self._owner = "unscheduled"
+      return True
+    s = sched()
+    s.point()
+    if self._owner is None:
+      self._owner = s.current
+      return True
+    if not blocking:
+      return False
+    ok = s.block(lambda: self._owner is None, None if timeout in (-1, None) else timeout,
+                 what="Lock.acquire")
+    if not ok:
+      return False
+    self._owner = s.current
+    return True
+
+  def release(self):
+    if self._owner is None:
+      raise RuntimeError("release unlocked lock")
+    self._owner = None
+    if CUR is not None:
+      sched().point()
+
+  def locked(self):
+    return self._owner is not None
+
+  __enter__ = acquire
+
+  def __exit__(self, *a):
+    self.release()
+
+
+_REAL_LOCK_TYPES = (type(_threading.Lock()), type(_threading.RLock()))
+
+
+def virtualize_locks(obj):
+  """Replace real lock objects held in an object's attributes by virtual ones (objects
+  created at import time, before the substitution)."""
+  try:
+    items = list(vars(obj).items())
+  except TypeError:
+    return 0
+  n = 0
+  for k, v in items:
+    if isinstance(v, _REAL_LOCK_TYPES):
+      setattr(obj, k, VRLock() if isinstance(v, _REAL_LOCK_TYPES[1]) else VLock())
+      n += 1
+  return n
 
 
 class _VQueueShell:
@@ -634,9 +702,12 @@ def install(fresh=False):
   import miros.thread_safe_attributes as tsa
   if getattr(ao, "_vf_installed", False):
     return ao
+  import miros.event as ev
+  import miros.singleton as sg
+  import miros.hsm as hsm
   subst = {threading.Thread: VThread, threading.Event: VEvent, queue.Queue: VQueue,
-           queue.PriorityQueue: VPriorityQueue, threading.RLock: VRLock}
-  for mod in (ao, tsa):
+           queue.PriorityQueue: VPriorityQueue, threading.RLock: VRLock, threading.Lock: VLock}
+  for mod in (ao, tsa, ev, sg, hsm):
     for k, v in list(vars(mod).items()):
       for real, virt in subst.items():
         if v is real:
@@ -648,6 +719,14 @@ def install(fresh=False):
     pass
   ao.SourceThreadEvent = SourceThreadEvent
   ao.FiberThreadEvent.klass = SourceThreadEvent
+  # objects made at import time may hold real locks (registries, singleton wrappers), and
+  # modules may keep lock objects as globals
+  for mod in (ao, ev, sg, hsm, tsa):
+    for k, v in list(vars(mod).items()):
+      if isinstance(v, _REAL_LOCK_TYPES):
+        setattr(mod, k, VRLock() if isinstance(v, _REAL_LOCK_TYPES[1]) else VLock())
+      elif not isinstance(v, type) and not isinstance(v, type(sys)):
+        virtualize_locks(v)
   ao._vf_installed = True
   reset(ao)
   return ao
